@@ -387,21 +387,30 @@ impl ArrayLike for RangeArray {
 
 #[derive(Debug, Trace)]
 pub struct ReverseArray(pub ArrValue);
+impl ReverseArray {
+	/// Index into the underlying array, `None` if out of bounds
+	fn reversed_index(&self, index: usize) -> Option<usize> {
+		self.0.len().checked_sub(index)?.checked_sub(1)
+	}
+}
 impl ArrayLike for ReverseArray {
 	fn len(&self) -> usize {
 		self.0.len()
 	}
 
 	fn get(&self, index: usize) -> Result<Option<Val>> {
-		self.0.get(self.0.len() - index - 1)
+		let Some(index) = self.reversed_index(index) else {
+			return Ok(None);
+		};
+		self.0.get(index)
 	}
 
 	fn get_lazy(&self, index: usize) -> Option<Thunk<Val>> {
-		self.0.get_lazy(self.0.len() - index - 1)
+		self.0.get_lazy(self.reversed_index(index)?)
 	}
 
 	fn get_cheap(&self, index: usize) -> Option<Val> {
-		self.0.get_cheap(self.0.len() - index - 1)
+		self.0.get_cheap(self.reversed_index(index)?)
 	}
 	fn is_cheap(&self) -> bool {
 		self.0.is_cheap()
